@@ -117,28 +117,30 @@ var checks = []Check{
 			{Pkg: "proc/redis", Scenarios: []string{"C04/histories"}, Shards: 16, QuickS: 90, ThoroughS: 900},
 			{Pkg: "proc/redis", Scenarios: []string{"C04/asking"}, Shards: 16, QuickS: 90, ThoroughS: 600},
 			{Pkg: "proc/redis", Scenarios: []string{"C04/pipelined-redirect"}, Shards: 16, QuickS: 60, ThoroughS: 600},
+			{Pkg: "proc/redis", Scenarios: []string{"C04/failover-in-flight"}, Shards: 16, QuickS: 60, ThoroughS: 600},
 		},
 	},
 	{
 		ID: "C07", Title: "the proxy heals after connection loss and topology change", Level: "model_checking",
-		LevelText:   "every history up to depth 5/6 (plus selected deeper convergence histories) over connection resets, node down/up, slot-group moves (including the last group of a master) and refresh rounds on the real proxy stack; requests issued at quiescence and compared with a single-server reference; redirections must stop within two refresh rounds after the first redirection",
+		LevelText:   "every history up to depth 5/6 (plus selected deeper convergence histories) over connection resets, node down/up, slot-group moves (including the last group of a master) and refresh rounds on the real proxy stack; requests issued at quiescence and compared with a single-server reference; redirections must stop within two refresh rounds after the first redirection; the same histories one level less deep with nodes known by host name (connection address differs from the backend's key); schedule exploration of simultaneous connection losses and of a layout change + redirection while a refresh answered from the old layout is in flight",
 		Technique:   "exhaustive enumeration of fault/topology histories on the real proxy stack under a controlled scheduler with virtual time",
 		Assumptions: append([]string{"mini Redis Cluster (ownership changes are atomic cluster-wide; a restarted node keeps its data)", "default schedule per operation; the random seed-host choice rotates fairly"}, engineAssumptions...),
 		Jobs: []Job{
 			{Pkg: "proc/redis", Scenarios: []string{"C07/histories"}, Shards: 16, QuickS: 90, ThoroughS: 900},
 			{Pkg: "proc/redis", Scenarios: []string{"C07/concurrent-loss"}, Shards: 16, QuickS: 60, ThoroughS: 600},
+			{Pkg: "proc/redis", Scenarios: []string{"C07/refresh-in-flight"}, Shards: 16, QuickS: 60, ThoroughS: 600},
 		},
 	},
 	{
 		ID: "C01", Title: "replies come back in request order, exactly one per request", Level: "model_checking",
-		LevelText:   "stateless exploration on the real proxy stack: every pipeline of length <= 2/3 over a 10-request alphabet x every cut of its bytes into two writes (default schedule); every pipeline of length <= 2 (+ selected of length 3) under all schedules within preemption/delay/select bounds; two concurrent connections; a narrow driver of one backend client with three senders deciding per-backend FIFO pairing; a 40-request pipeline exceeding the 32-entry session queue; oracle: the received bytes parse with an independent codec into exactly one reply per request, reply k being the single-server answer to request k",
+		LevelText:   "stateless exploration on the real proxy stack: every pipeline of length <= 2/3 over a 10-request alphabet x every cut of its bytes into two writes (default schedule); every pipeline of length <= 2 (+ selected of length 3) under all schedules within preemption/delay/select bounds; two concurrent connections; a narrow driver of one backend client with three senders deciding per-backend FIFO pairing; a 40-request pipeline exceeding the 32-entry session queue; every unsupported command name over {CR, LF, x} up to length 5 inside a pipeline; oracle: the received bytes parse with an independent codec into exactly one reply per request, reply k being the single-server answer to request k",
 		Technique:   "preemption/delay-bounded stateless schedule exploration + exhaustive input/fragmentation enumeration on the real proxy stack",
 		Assumptions: engineAssumptions,
 		Jobs: []Job{
 			{Pkg: "proc/redis", Scenarios: []string{"C01/fragments"}, Shards: 16, QuickS: 70, ThoroughS: 600},
 			{Pkg: "proc/redis", Scenarios: []string{"C02/split-race"}, Race: true, Shards: 1, QuickS: 60, ThoroughS: 300},
 			{Pkg: "proc/redis", Scenarios: []string{"C01/schedules"}, Shards: 16, QuickS: 70, ThoroughS: 600},
-			{Pkg: "proc/redis", Scenarios: []string{"C01/two-conns", "C01/backend-fifo", "C01/long-pipeline"}, Shards: 16, QuickS: 60, ThoroughS: 600},
+			{Pkg: "proc/redis", Scenarios: []string{"C01/two-conns", "C01/backend-fifo", "C01/long-pipeline", "C01/odd-names"}, Shards: 16, QuickS: 60, ThoroughS: 600},
 		},
 	},
 	{
@@ -147,7 +149,7 @@ var checks = []Check{
 		Technique:   "preemption/delay-bounded stateless schedule exploration of the real goroutines under a controlled scheduler with fault injection at every network operation",
 		Assumptions: engineAssumptions,
 		Jobs: []Job{
-			{Pkg: "proc/redis", Scenarios: []string{"C02/split", "C02/banned-pipeline"}, Shards: 8, QuickS: 60, ThoroughS: 300},
+			{Pkg: "proc/redis", Scenarios: []string{"C02/split", "C02/banned-pipeline", "C02/banned-pipeline-faults"}, Shards: 8, QuickS: 60, ThoroughS: 300},
 			{Pkg: "proc/redis", Scenarios: []string{"C02/split-race"}, Race: true, Shards: 1, QuickS: 60, ThoroughS: 300},
 			{Pkg: "proc/redis", Scenarios: []string{"C02/client"}, Shards: 16, QuickS: 80, ThoroughS: 600},
 			{Pkg: "proc/redis", Scenarios: []string{"C02/upstream"}, Shards: 16, QuickS: 80, ThoroughS: 600},
